@@ -313,7 +313,14 @@ class Harness:
 # ---------------------------------------------------------------------------------- one cell
 def _concrete_run(h, cell, inp_exact, model=None, table=None):
     """run the scenario + oracle on the real stack; returns (outputs, failures, evaluated, memo)"""
-    W = h.make_world("conc", cell)
+    key = ("conc", cell["name"])
+    cache = h.__dict__.setdefault("_world_cache", {})
+    W = cache.get(key)
+    if W is None:
+        W = cache[key] = h.make_world("conc", cell)
+    W.memo = {}
+    W._model = None
+    W._table = None
     if model is not None:
         W.set_model(model)
     if table is not None:
